@@ -114,6 +114,129 @@ def query(e, q):
     raise ValueError(f"unknown query {q}")
 
 
+# ---------------------------------------------------------------- tempo conversion / metrize
+from mutwo import core_converters as cc  # noqa: E402
+
+C_, S_, P_ = ce.Chronon, ce.Consecution, ce.Concurrence
+
+
+def build_tree(x):
+    """M1 syntax: (L d l) | (S tag tempo kids...) | (P tag tempo kids...); tempo ids ignored here"""
+    if x[0] == "L":
+        c = C_(int(x[1]) / TICK)
+        c.name = int(x[2])
+        return c
+    cls = S_ if x[0] == "S" else P_
+    return cls([build_tree(k) for k in x[3:]])
+
+
+def build_tempo(x):
+    if x[0] == "C":
+        return cp.DirectTempo(fl(x[1]))
+    if x[0] == "D":
+        return cp.DirectTempo(fl(x[1][1]))
+    return build(["T"] + x[1:])
+
+
+def build_ttree(x):
+    if x[0] == "L":
+        c = C_(int(x[1]) / TICK)
+        c.tempo = build_tempo(x[2])
+        return c
+    cls = S_ if x[0] == "S" else P_
+    return cls([build_ttree(k) for k in x[2:]], tempo=build_tempo(x[1]))
+
+
+def leaf_durs(e):
+    if isinstance(e, C_):
+        return [sf(e.duration.beat_count)]
+    out = []
+    for c in e:
+        out += leaf_durs(c)
+    return out
+
+
+def shape_of(e):
+    if isinstance(e, C_):
+        return ["L", getattr(e, "name", -1)]
+    return ["S" if isinstance(e, S_) else "P"] + [shape_of(c) for c in e]
+
+
+def tempo_snap(t):
+    if isinstance(t, cp.FlexTempo):
+        return ["flex"] + [[ticks(ev.duration), sf(v), sf(c)] for ev, v, c in zip(t, t.value_tuple, t.curve_shape_tuple)]
+    return ["direct", sf(t.bpm)]
+
+
+def full_snap(e):
+    """durations + tempo of every node"""
+    if isinstance(e, C_):
+        return ["L", sf(e.duration.beat_count), tempo_snap(e.tempo)]
+    return ["S" if isinstance(e, S_) else "P", tempo_snap(e.tempo)] + [full_snap(c) for c in e]
+
+
+def neutral(e):
+    t = e.tempo
+    ok = (t.bpm == 60) and (not isinstance(t, cp.FlexTempo) or (t.is_static and t.value_tuple[0] == 60))
+    if isinstance(e, C_):
+        return ok
+    return ok and all(neutral(c) for c in e)
+
+
+def _walk(e):
+    yield e
+    if not isinstance(e, C_):
+        for c in e:
+            yield from _walk(c)
+
+
+def run_convert(case):
+    tempo = build_tempo(case[1])
+    conv = cc.TempoConverter(tempo)
+    env_before = snap(conv._beat_length_in_seconds_envelope)
+    tempo_before = tempo_snap(tempo)
+    out = ["ok"]
+    flags = []
+    for tx in case[2:]:
+        src = build_tree(tx)
+        before = full_snap(src)
+        r = conv.convert(src)
+        out.append(leaf_durs(r))
+        if shape_of(r) != shape_of(src):
+            flags.append("structure-changed")
+        if full_snap(src) != before:
+            flags.append("input-changed")
+        if any(a is b for a, b in zip(_walk(r), _walk(src))):
+            flags.append("shares-objects")
+    if snap(conv._beat_length_in_seconds_envelope) != env_before:
+        flags.append("converter-envelope-changed")
+    if tempo_snap(tempo) != tempo_before:
+        flags.append("tempo-argument-changed")
+    out.append(["flags"] + sorted(set(flags)))
+    return out
+
+
+def run_metrize(case):
+    src = build_ttree(case[1])
+    before = full_snap(src)
+    flags = []
+    r = cc.EventToMetrizedEvent().convert(src)
+    if full_snap(src) != before:
+        flags.append("input-changed")
+    if shape_of(r) != shape_of(src):
+        flags.append("structure-changed")
+    if not neutral(r):
+        flags.append("not-neutral-after")
+    inplace = src.copy()
+    ret = inplace.metrize()
+    if leaf_durs(inplace) != leaf_durs(r) or not neutral(inplace) or ret is not inplace:
+        flags.append("inplace-differs")
+    again = cc.EventToMetrizedEvent().convert(r)
+    if leaf_durs(again) != leaf_durs(r) or not neutral(again):
+        flags.append("not-idempotent")
+    return ["ok", leaf_durs(r), ["flags"] + sorted(set(flags))]
+
+
 def run(case):
     k = case[0]
     if k == "envq":
@@ -156,6 +279,19 @@ def run(case):
     if k == "of_points":
         pts = [[int(p[0]) / TICK, num(p[1]), num(p[2])] for p in case[1]]
         return snap(ce.Envelope(pts))
+    if k in ("convert", "convert1"):
+        try:
+            r = run_convert(case)
+        except Exception as exc:  # noqa
+            return err(exc)
+        if k == "convert1":
+            return ["ok", r[1], r[-1]]
+        return r
+    if k == "metrize":
+        try:
+            return run_metrize(case)
+        except Exception as exc:  # noqa
+            return err(exc)
     raise ValueError(f"unknown case {case}")
 
 
